@@ -139,9 +139,15 @@ func (b *Reader) Peek(n int) ([]byte, error) {
 	if n < 0 {
 		return nil, ErrNegativeCount
 	}
+
+	// Peek may slide the buffer: the last byte/rune can not be unread afterwards
+	b.lastByte = -1
+	b.lastRuneSize = -1
+
 	if n > len(b.buf) {
 		return nil, ErrBufferFull
 	}
+
 	for b.w-b.r < n && b.err == nil {
 		b.fill()
 	}
@@ -232,24 +238,21 @@ func (b *Reader) ReadByte() (c byte, err error) {
 
 // UnreadByte unreads the last byte.  Only the most recently read byte can be unread.
 func (b *Reader) UnreadByte() error {
-	b.lastRuneSize = -1
-	if b.r == b.w && b.lastByte >= 0 {
-		b.w = 1
-		b.r = 0
-		b.buf[0] = byte(b.lastByte)
-		b.lastByte = -1
-
-		if b.TotalRead > 0 {
-			b.TotalRead -= 1
-		}
-
-		return nil
-	}
-	if b.r <= 0 {
+	// every reading method records the last byte it handed out (or -1 when the
+	// last byte can not be given back): never trust stale buffer content
+	if b.lastByte < 0 || b.r == 0 && b.w > 0 {
 		return ErrInvalidUnreadByte
 	}
-	b.r--
+	// b.r > 0 || b.w == 0
+	if b.r > 0 {
+		b.r--
+	} else {
+		// b.r == 0 && b.w == 0
+		b.w = 1
+	}
+	b.buf[b.r] = byte(b.lastByte)
 	b.lastByte = -1
+	b.lastRuneSize = -1
 
 	if b.TotalRead > 0 {
 		b.TotalRead -= 1
@@ -317,6 +320,14 @@ func (b *Reader) Buffered() int { return b.w - b.r }
 // ReadSlice returns err != nil if and only if line does not end in delim.
 func (b *Reader) ReadSlice(delim byte) (line []byte, err error) {
 	// Look in buffer.
+	// the last byte read is the last byte of the returned line
+	defer func() {
+		if i := len(line) - 1; i >= 0 {
+			b.lastByte = int(line[i])
+		}
+		b.lastRuneSize = -1
+	}()
+
 	if i := bytes.IndexByte(b.buf[b.r:b.w], delim); i >= 0 {
 		line1 := b.buf[b.r : b.r+i+1]
 		b.r += i + 1
@@ -345,7 +356,8 @@ func (b *Reader) ReadSlice(delim byte) (line []byte, err error) {
 			line := b.buf[0 : n+i+1]
 			b.r = n + i + 1
 
-			b.TotalRead += i + 1
+			// bytes buffered before fill() are consumed as well
+			b.TotalRead += n + i + 1
 
 			return line, nil
 		}
@@ -385,7 +397,13 @@ func (b *Reader) ReadLine() (line []byte, isPrefix bool, err error) {
 				panic("bfe_bufio: tried to rewind past start of buffer")
 			}
 			b.r--
+			b.TotalRead--
 			line = line[:len(line)-1]
+			// the '\r' was given back: the last byte read is the one before it
+			b.lastByte = -1
+			if len(line) > 0 {
+				b.lastByte = int(line[len(line)-1])
+			}
 		}
 		return line, true, nil
 	}
@@ -471,6 +489,9 @@ func (b *Reader) ReadString(delim byte) (line string, err error) {
 
 // WriteTo implements io.WriterTo.
 func (b *Reader) WriteTo(w io.Writer) (n int64, err error) {
+	b.lastByte = -1
+	b.lastRuneSize = -1
+
 	n, err = b.writeBuf(w)
 	if err != nil {
 		return
